@@ -17,6 +17,7 @@ import (
 
 	"verif/internal/gen"
 	"verif/internal/gt"
+	"verif/internal/litfuzz"
 	"verif/internal/ox"
 	"verif/internal/pgen"
 	"verif/internal/run"
@@ -58,6 +59,15 @@ var valueKinds = []string{
 	`({get a(){throw new Error("g")},set a(v){throw new Error("s")}})`,
 	"this", "Math", "JSON", "Object.prototype", "Array.prototype", "Function.prototype",
 	"goStruct", "goMap", "goSlice", "goArray", "goFunc", "goPtr",
+	// values produced by multi-step reflective sequences (appended: witnesses refer to kinds by index)
+	"(function(){var o={x:1};Object.defineProperty(o,'x',{get:undefined,set:function(v){}});return Object.getOwnPropertyDescriptor(o,'x').get})()",
+	"(function(){var o={x:1};Object.defineProperty(o,'x',{get:function(){return 1},set:undefined});return Object.getOwnPropertyDescriptor(o,'x')})()",
+	"(function(){var o={};Object.defineProperty(o,'x',{get:undefined});Object.defineProperty(o,'x',{set:undefined});return Object.getOwnPropertyDescriptor(o,'x').set})()",
+	"Object.getOwnPropertyDescriptor((function(a){return arguments})(1),'0')",
+	"(function(){return 1}).bind({t:1},2)", "/(a)(b)?/.exec('ab')", `JSON.parse('{"a":[1,{"b":null}],"__proto__":{"c":1}}')`,
+	"(function(){var a=[1,2,3];Object.defineProperty(a,'1',{get:function(){a.length=0;return 9},enumerable:true,configurable:true});return a})()",
+	"(function(){var p={};Object.defineProperty(p,'inh',{get:function(){return this},set:function(v){throw new TypeError('s')},enumerable:true});return Object.create(p,{own:{value:1}})})()",
+	"(function(){try{null.x}catch(e){return e}})()", "Object.preventExtensions([1,2])", "Object.seal({a:{}})", "(function(){var f=function(){};f.prototype=null;return f})()",
 }
 
 // excluded: (function suffix, reason). Resource exhaustion is outside the
@@ -447,6 +457,16 @@ func goAPIPairs(c *run.Ctx, fn string, pairs [][2]int) {
 var apis = []string{"Run", "Eval", "Compile", "Call", "Object", "eval", "Function", "Set-Get"}
 
 func hostileSource(r *gen.Rand) string {
+	switch r.Intn(8) {
+	case 0:
+		return litfuzz.Source(r)
+	case 1:
+		// the same fragments reach the pattern translator through the constructor and the string methods
+		pat, _ := json.Marshal(litfuzz.Pattern(r))
+		fl := []string{"", "g", "gi", "m", "x", "gg"}[r.Intn(6)]
+		re := "new RegExp(" + string(pat) + ", \"" + fl + "\")"
+		return []string{re + ".exec('aab\\n/')", "'aab'.match(" + string(pat) + ")", "'a/b'.split(" + re + ")", "'aab'.replace(" + re + ", '$1$&')", "'aab'.search(" + string(pat) + ")", "RegExp(" + string(pat) + ").toString()"}[r.Intn(6)]
+	}
 	g := pgen.NewG(r)
 	p := g.Program()
 	toks := gt.Tokens(p)
